@@ -28,7 +28,7 @@ except Exception:   # pragma: no cover
     pass
 
 ID = "C14"
-RUNS = {"quick": 28_000, "thorough": 2_000_000}
+RUNS = {"quick": 28_000, "thorough": 1_200_000}
 MAX_BATCH = 2000
 SIM_TIME_UNIT = "virtual seconds"
 RULE = (
@@ -94,6 +94,8 @@ def gen_stage(tape, name, cleanups, allow_cleanup, n, hot=1):
     else:
         end.append(None)
     end.append(tape.choice("program", GRID, "delay") if end[0].startswith("later") else 0)
+    # the same completion, built as defer.succeed(x).addCallback(<returns the pending Deferred>)
+    end.append(end[0].startswith("later") and tape.chance("program", 1, 3, "chained-on-fired-deferred"))
     n[0] += 1
     return {"side": side, "end": end, "marker": "MK%d." % n[0]}
 
@@ -153,7 +155,7 @@ def model(stages, cleanups, cfg, events):
                 m["unhandled"] += 1
             elif s[0] == "interrupt":
                 inner.append((t, len(m["starts"]) - 1))
-        kind, exc, d = spec["end"]
+        kind, exc, d = spec["end"][:3]
         if kind == "never":
             t = INF
             m["async"] = True
@@ -273,7 +275,8 @@ def run_one(tape, opts):
                 # late, inside Spinner._clean's iterate() calls, after the handlers were restored)
                 if reactor._started:
                     sim.fire(s[1])
-        kind, exc, d = spec["end"]
+        kind, exc, d = spec["end"][:3]
+        chained = len(spec["end"]) > 3 and spec["end"][3]
         if kind == "return":
             return None
         if kind == "raise":
@@ -287,6 +290,8 @@ def run_one(tape, opts):
             reactor.callLater(d, dd.callback, None)
         elif kind == "later_fail":
             reactor.callLater(d, dd.errback, _exc(exc, spec["marker"]))
+        if chained:
+            return defer.succeed(None).addCallback(lambda _: dd)
         return dd
 
     class Scripted(testtools.TestCase):
@@ -412,9 +417,11 @@ def run_one(tape, opts):
             out.violate("stage-order", _diff(xlog, m["starts"]), f"executed {xlog} expected {m['starts']}; model {m}; stages {stages}; cfg {cfg}; events {events}")
     # ------------------------------------------------------------------ accounting
     for k in fired:
-        out.fire("event:" + k)
-    if events or any(s[0] == "interrupt" for sp_ in list(stages.values()) + list(cleanups.values()) for s in sp_["side"]):
-        out.plan("interrupt")
+        out.fire("event:" + k.split(":")[0])
+    for at, k in events:
+        out.plan("event:" + k.split(":")[0])
+    if any(s[0] == "interrupt" for sp_ in list(stages.values()) + list(cleanups.values()) for s in sp_["side"]):
+        out.plan("event:in-stage-interrupt")
     if m["tie"]:
         out.probe("tie-run")
     if m["halt"]:
